@@ -17,7 +17,12 @@ class Executor(Exec):
     # ---- calls -------------------------------------------------------------------------------
     def ev_Call(self, e, st, k):
         if any(isinstance(a, ast.Starred) for a in e.args) or any(kw.arg is None for kw in e.keywords):
-            raise Unsupported("star args")
+            oc = getattr(self.cur_contract, "opaque_calls", None) or []
+            fname = e.func.attr if isinstance(e.func, ast.Attribute) else getattr(e.func, "id", "")
+            if fname not in oc:
+                raise Unsupported("star args")
+            plain = [a for a in e.args if not isinstance(a, ast.Starred)]
+            return self.evs(plain, st, lambda vals, st2: self.opaque_call(fname, st2, k, vals, {}))
         def got_f(f, st2):
             def got_args(vals, st3):
                 args = vals[:len(e.args)]
@@ -275,6 +280,8 @@ class Executor(Exec):
         if not (isinstance(cls, SClosure) and cls.kind == "name"): raise Unsupported("isinstance with computed class")
         c = cls.name
         if isinstance(v, SNone): return z3.BoolVal(False)
+        if isinstance(v, SPrim) and v.ty == "PyVal":
+            return S.obj_fn("isinstance." + c, S.PyVal, z3.BoolSort())(v.t)
         if isinstance(v, SPrim):
             if v.ty == "Id":
                 return {"str": S.Id.is_StrId(v.t), "int": S.Id.is_IntId(v.t)}.get(c, z3.BoolVal(False))
@@ -395,9 +402,13 @@ class Executor(Exec):
             dv = args[1] if len(args) > 1 else SNone()
             if kt is None: return k(dv, st)
             return self.branch(c.dom[kt], st, lambda s: k(S.wrap(c.vty, c.val[kt]), s), lambda s: k(dv, s))
-        if name == "update" and len(args) == 1:
-            o = self.to_setv(args[0], st) if c.vty == "none" else None
-            raise Unsupported("dict.update")
+        if name == "setdefault" and len(args) == 2:
+            kt = ops.key_term(c.kty, args[0])
+            if kt is None: raise Unsupported("dict.setdefault key type")
+            vt = term_of(self.coerce(args[1], c.vty, st))
+            def absent(s):
+                return k(S.wrap(c.vty, vt), s.put(recv.ref, DictCell(c.kty, c.vty, z3.Store(c.dom, kt, True), z3.Store(c.val, kt, vt))))
+            return self.branch(c.dom[kt], st, lambda s: k(S.wrap(c.vty, c.val[kt]), s), absent)
         raise Unsupported(f"dict.{name}")
 
     def list_method(self, recv, c: ListCell, name, args, st, k):
@@ -623,6 +634,10 @@ class Executor(Exec):
             if sq.elem != ty[1]: raise Unsupported(f"sequence of {sq.elem} where {ty[1]} expected")
             return sq
         if ty == "Id": return self.to_id(v)
+        if ty == "PyVal":
+            if isinstance(v, SPrim) and v.ty == "PyVal": return v
+            if isinstance(v, SPrim) and v.ty == "str": return SPrim("PyVal", S.pv_of_str(v.t))
+            return SPrim("PyVal", S.fresh("pv", S.PyVal))          # any other Python value: an unknown one
         if isinstance(ty, tuple) and ty[0] in ("dict", "obj", "list", "set"):
             if isinstance(v, SRef): return v
             raise Unsupported(f"{v} where {ty} expected")
